@@ -30,7 +30,7 @@ class C07(BaseCheck):
                  'a max-waiters rejection is accepted whenever live + not-yet-skipped timed-out waiters >= '
                  'max_queue_len, and required whenever live waiters alone >= max_queue_len')
   QUICK_CASES = 1600
-  THOROUGH_CASES = 20000
+  THOROUGH_CASES = 150000
   QUICK_WALL = 45
   THOROUGH_WALL = 420
   MIN_DISTINCT = 10
